@@ -1,2 +1,10 @@
 // C07: the header a sealed state commits to, as a function of the abstract state (hand-written)
 pub uninterp spec fn spec_header<C: ContentAddrStore>(s: UnsealedState<C>) -> Header;
+/// the state a sealing produces (melmint settlement, TIP-909 subsidy, proposer action); defined in the seal unit, opaque elsewhere
+pub uninterp spec fn spec_seal<C: ContentAddrStore>(s: UnsealedState<C>, a: Option<ProposerAction>) -> UnsealedState<C>;
+/// "the previous block's header" as a covenant sees it: the header stored at height-1, or (only at height 0) the header this
+/// very state would seal to without a proposer action
+pub open spec fn spec_last_header<C: ContentAddrStore>(s: UnsealedState<C>) -> Header {
+    let h = BlockHeight(if s.height.0 == 0 { 0u64 } else { (s.height.0 - 1) as u64 });
+    if s.history@.contains_key(h) { s.history@[h] } else { spec_header(spec_seal(s, None)) }
+}
